@@ -1,0 +1,191 @@
+//go:build verif
+
+package main
+
+import (
+	"bytes"
+	"fmt"
+	"go/types"
+	"os"
+	"sort"
+	"strings"
+)
+
+var verifTransformers = map[string]*transformer{}
+
+func verifTransformer(path string) *transformer {
+	if tf := verifTransformers[path]; tf != nil {
+		return tf
+	}
+	lpkg, ok := sharedCache.ListedPackages.get(path)
+	if !ok {
+		panic("package not listed: " + path)
+	}
+	tf, _, err := transformerForListedPackage(lpkg)
+	if err != nil {
+		panic(err)
+	}
+	verifTransformers[path] = tf
+	return tf
+}
+
+// verifObjDesc renders the descriptor the Lean model decides on, followed by the real decision.
+// kind|name|class|pkgpath|toObfuscate|garbleActionID|hasRecv|testSig|intrinsic|structHash|fieldName => decision
+func verifObjDesc(tf *transformer, obj types.Object) string {
+	kind, hasRecv, testSig, structHash := "other", 0, 0, "-"
+	switch o := obj.(type) {
+	case *types.Var:
+		kind = "var"
+		if o.IsField() {
+			kind = "field"
+			if s := tf.fieldToStruct[o.Origin()]; s != nil {
+				structHash = fmt.Sprint(typeutil_hash(s))
+			}
+		}
+	case *types.TypeName:
+		kind = "type"
+	case *types.Func:
+		kind = "func"
+		sign := o.Signature()
+		if sign.Recv() != nil {
+			hasRecv = 1
+		}
+		if isTestSignature(sign) {
+			testSig = 1
+		}
+	case *types.Const:
+		kind = "const"
+	case *types.PkgName:
+		kind = "pkgname"
+	case *types.Label:
+		kind = "label"
+	}
+	path, toObf, gaid := "-", 0, "-"
+	intrinsic := 0
+	if obj.Pkg() != nil {
+		path = verifHex([]byte(obj.Pkg().Path()))
+		if lpkg, err := listPackage(tf.curPkg, obj.Pkg().Path()); err == nil {
+			if lpkg.ToObfuscate {
+				toObf = 1
+			}
+			gaid = verifHex(lpkg.GarbleActionID[:])
+		}
+		if compilerIntrinsics[obj.Pkg().Path()][obj.Name()] {
+			intrinsic = 1
+		}
+	}
+	cls := 0
+	if tokenIsIdent(obj.Name()) {
+		cls = 2
+		if obj.Exported() {
+			cls = 1
+		}
+	}
+	newName, ok := tf.obfuscatedObjectName(obj)
+	decision := "keep"
+	if ok {
+		decision = "rename:" + verifHex([]byte(newName))
+	}
+	return fmt.Sprintf("%s|%s|%d|%s|%d|%s|%d|%d|%d|%s=>%s", kind, verifHex([]byte(obj.Name())), cls, path, toObf, gaid, hasRecv, testSig, intrinsic, structHash, decision)
+}
+
+var _ = func() bool {
+	// load <dir> <gogarble> <pattern...> : the route "garble map"/"garble reverse" take (real go list)
+	verifOps["load"] = func(a []string) string {
+		if err := os.Chdir(string(verifUnhex(a[0]))); err != nil {
+			return "err chdir"
+		}
+		if g := string(verifUnhex(a[1])); g != "" {
+			os.Setenv("GOGARBLE", g)
+		} else {
+			os.Unsetenv("GOGARBLE")
+		}
+		sharedCache = nil
+		verifTransformers = map[string]*transformer{}
+		_, err := toolexecCmd("list", verifToks(a[2:]))
+		os.RemoveAll(os.Getenv("GARBLE_SHARED"))
+		if err != nil {
+			if sharedCache == nil {
+				sharedCache = &sharedCacheType{ListedPackages: newListedPackages()}
+			}
+			return "err " + verifHex([]byte(err.Error()))
+		}
+		return fmt.Sprintf("ok %d %s %s", len(sharedCache.ListedPackages.all()), verifHex(sharedCache.BinaryContentID), verifHex([]byte(sharedCache.GOGARBLE)))
+	}
+	// pkgs -> path|name|toObfuscate|garbleActionID|forTest|standard|nfiles|obfImportPath|obfPackageName for every listed package
+	verifOps["pkgs"] = func(a []string) string {
+		var l []string
+		for _, p := range sharedCache.ListedPackages.all() {
+			b := func(x bool) int {
+				if x {
+					return 1
+				}
+				return 0
+			}
+			l = append(l, fmt.Sprintf("%s|%s|%d|%s|%s|%d|%d|%s|%s", verifHex([]byte(p.ImportPath)), verifHex([]byte(p.Name)), b(p.ToObfuscate),
+				verifHex(p.GarbleActionID[:]), verifHex([]byte(p.ForTest)), b(p.Standard), len(p.CompiledGoFiles),
+				verifHex([]byte(p.obfuscatedImportPath())), verifHex([]byte(p.obfuscatedPackageName()))))
+		}
+		sort.Strings(l)
+		return verifList(l)
+	}
+	// objs <pkgpath> -> descriptor=>decision for every object defined or used in the package (deduplicated, sorted)
+	verifOps["objs"] = func(a []string) string {
+		tf := verifTransformer(string(verifUnhex(a[0])))
+		seen := map[string]bool{}
+		for _, obj := range tf.info.Defs {
+			if obj != nil {
+				seen[verifObjDesc(tf, obj)] = true
+			}
+		}
+		for _, obj := range tf.info.Uses {
+			seen[verifObjDesc(tf, obj)] = true
+		}
+		var l []string
+		for k := range seen {
+			l = append(l, k)
+		}
+		sort.Strings(l)
+		return verifList(l)
+	}
+	// linkname <curpkg> <localName> <newName> -> the real transformLinkname
+	verifOps["linkname"] = func(a []string) string {
+		tf := verifTransformer(string(verifUnhex(a[0])))
+		l, n := tf.transformLinkname(string(verifUnhex(a[1])), string(verifUnhex(a[2])))
+		return verifHex([]byte(l)) + " " + verifHex([]byte(n))
+	}
+	// asmnames <curpkg> <text> -> the real replaceAsmNames
+	verifOps["asmnames"] = func(a []string) string {
+		tf := verifTransformer(string(verifUnhex(a[0])))
+		var buf bytes.Buffer
+		tf.replaceAsmNames(&buf, verifUnhex(a[1]))
+		return verifHex(buf.Bytes())
+	}
+	// goasm <pkg> -> what saveGoAsmNames would record (recomputed with the same statements; the function itself only writes to the cache)
+	verifOps["structfields"] = func(a []string) string {
+		tf := verifTransformer(string(verifUnhex(a[0])))
+		var l []string
+		scope := tf.pkg.Scope()
+		for _, name := range scope.Names() {
+			tn, ok := scope.Lookup(name).(*types.TypeName)
+			if !ok {
+				continue
+			}
+			strct, ok := tn.Type().Underlying().(*types.Struct)
+			if !ok {
+				continue
+			}
+			for field := range strct.Fields() {
+				emb := 0
+				if field.Embedded() {
+					emb = 1
+				}
+				l = append(l, fmt.Sprintf("%s|%s|%d|%s", name, field.Name(), emb, strings.TrimSpace(verifObjDesc(tf, field))))
+			}
+		}
+		return verifList(l)
+	}
+	return true
+}()
+
+func tokenIsIdent(s string) bool { return verifIsIdentifier(s) }
